@@ -59,6 +59,64 @@ def units_map(prog):
     return pairs, b
 
 
+def exponent_lookahead(prog, rep):
+    """(introducer characters, set of bytes that make the reader take the introducer as an exponent), from parse_number's own branches"""
+    b = prog.get("haystack::encoding::zinc::decode::scalar::number::parse_number")
+    dflt = ("eE", scanai.mask_of(b"+-0123456789"))
+    if b is None:
+        rep.gap("parse_number", "-", "not found")
+        return dflt
+    intro = None
+    peek = None
+    target = []
+    for bi, t in b.calls():
+        nm = strip_generics(mir.callee_name(t) or "")
+        if nm.endswith("Scanner::is_any_of") and intro is None:
+            v = G.describe(b, t["args"][1])
+            if v.kind == "conststr":
+                intro = v.v
+        elif nm.endswith("Scanner::peek") and peek is None:
+            peek = bi
+        elif nm.endswith("number::parse_exponent"):
+            target.append(bi)
+    if intro is None or peek is None or not target:
+        rep.gap("parse_number:exponent-lookahead", b.where(), "is_any_of / peek / parse_exponent not found (intro=%s peek=%s target=%s)" % (intro, peek, target))
+        return dflt
+    # the peeked byte: payload of the Continue edge of `peek()?`
+    start = var = None
+    for sb in b.rpo():
+        t = b.term(sb)
+        if t["k"] == "switch":
+            d = G.describe(b, t["op"])
+            if d.kind == "discr" and "Scanner::peek" in repr(d) and "branch" in repr(d):
+                for val, tb in t["targets"]:
+                    if int(val) == 0:
+                        start = tb
+        if start is not None:
+            break
+    if start is None:
+        rep.gap("parse_number:exponent-lookahead", b.where(), "Continue edge of peek()? not found")
+        return dflt
+    # name of the payload place as describe() prints it
+    cand = set()
+    region = set()
+    for tg in target:
+        region |= G.blocks_between(b, start, tg)
+    for sb in region:
+        t = b.term(sb)
+        if t["k"] == "switch":
+            for m in re.finditer(r"(_\d+ as Continue\.0)", repr(G.describe(b, t["op"]))):
+                cand.add(m.group(1))
+    if len(cand) != 1:
+        rep.gap("parse_number:exponent-lookahead", b.where(), "peeked byte not identified (%s)" % sorted(cand))
+        return dflt
+    must, may = G.byte_set_reaching(b, cand.pop(), start, target, scanai.U8_PREDS)
+    if must != may:
+        rep.gap("parse_number:exponent-lookahead", b.where(), "look-ahead set not exact (must %s, may %s)" % (scanai.mask_str(must), scanai.mask_str(may)))
+    rep.analysed["exponent_lookahead"] = "%s then %s" % (intro, scanai.mask_str(may))
+    return intro, may
+
+
 def check(ctx, rep):
     prog = ctx.prog
     units = unit_table(prog)
@@ -109,6 +167,7 @@ def check(ctx, rep):
     if u:
         rep.gap("is_unit_char:class", isu.where(), "byte class not fully evaluated (unknown for %s)" % scanai.mask_str(u))
     dec_first = scanai.mask_of(b"0123456789_.-")
+    exp_intro, exp_look = exponent_lookahead(prog, rep)
     nsym = 0
     for n, uu in sorted(units.items()):
         if not uu["ids"]:
@@ -128,10 +187,48 @@ def check(ctx, rep):
         if dec_first >> bs[0] & 1:
             rep.bad("R-UNITS", "R-UNITS:" + key, uu["where"], "symbol %r starts with a character the decimal scanner swallows" % sym)
             continue
-        if bs[0] in b"eE" and len(bs) > 1 and (bs[1] in b"+-0123456789"):
-            rep.bad("R-UNITS", "R-UNITS:" + key, uu["where"], "symbol %r reads as an exponent after a number" % sym)
+        if chr(bs[0]) in exp_intro and len(bs) > 1 and (exp_look >> bs[1] & 1):
+            rep.bad("R-UNITS", "R-UNITS:" + key, uu["where"], "symbol %r reads as an exponent after a number: the reader treats %r followed by one of %s as an exponent" % (sym, chr(bs[0]), scanai.mask_str(exp_look)))
             continue
         rep.ok("R-UNITS", key, uu["where"], "symbol %r re-reads as one unit token" % sym)
+    # 4b symbol() / name() are the last / first identifier of every unit that has one
+    for fn, which in (("haystack::units::unit::Unit::symbol", "last"), ("haystack::units::unit::Unit::name", "first")):
+        sb = prog.get(fn)
+        if sb is None:
+            rep.gap(fn, "-", "not found")
+            continue
+        ret = G.describe_place(sb, {"l": 0, "p": []})
+        key = "accessor:%s-is-%s-id" % (fn.split("::")[-1], which)
+        shape = (ret.kind == "call" and ret.v == "std::option::Option::map_or" and len(ret.args) == 3 and ret.args[0].kind == "call"
+                 and ret.args[0].v == "core::slice::<impl [T]>::%s" % which and repr(ret.args[0].args[0]) == "_1*.ids" and ret.args[1].kind == "conststr" and ret.args[1].v == "")
+        clo_ok = False
+        for cid in prog.closures_of.get(sb.id, []):
+            cb = prog.bodies[cid]
+            cr = G.describe_place(cb, {"l": 0, "p": []})
+            if cr.kind == "call" and cr.v in ("std::string::String::as_str", "<std::string::String as std::ops::Deref>::deref") or (cr.kind == "place" and cr.v.startswith("_2")):
+                clo_ok = True
+        if shape and clo_ok and sb.n <= 5:
+            rep.ok("R-UNITS", key, sb.where(), "%s() = ids.%s().map_or(\"\", as_str): the %s identifier whenever there is one" % (fn.split("::")[-1], which, which))
+            continue
+        # other shapes: the empty-string result must be confined to `ids` being empty, and some path must yield the element
+        empties = []
+        for bi in range(sb.n):
+            for st in sb.blocks[bi]["stmts"]:
+                if st["k"] == "assign" and not st["lhs"]["p"] and st["lhs"]["l"] == 0:
+                    v = G.describe(sb, st["rv"]["op"]) if st["rv"]["k"] == "use" else G.describe_place(sb, st["rv"].get("place")) if st["rv"]["k"] == "ref" else None
+                    if v is not None and v.kind == "conststr" and v.v == "":
+                        empties.append(bi)
+        confined = bool(empties)
+        for bi in empties:
+            gs = G.guards_at(sb, bi)
+            is_empty = any((g.op == "Eq" and g.b is not None and g.b.kind == "const" and g.b.v == 0 and "len" in repr(g.a) and ".ids" in repr(g.a)) or
+                           (g.op == "Lt" and g.b is not None and g.b.kind == "const" and g.b.v == 1 and "len" in repr(g.a) and ".ids" in repr(g.a)) or
+                           (g.op == "Eq" and g.a is not None and g.a.kind == "discr" and ("::%s(" % which) in repr(g.a) and g.b.v == 0) for g in gs)
+            confined = confined and is_empty
+        if confined:
+            rep.ok("R-UNITS", key, sb.where(), "the empty result is returned only when the unit has no identifiers")
+        else:
+            rep.bad("R-UNITS", "R-UNITS:" + key, sb.where(), "%s() is not `ids.%s()` for every non-empty id list (returns %s; the empty string is not confined to units without identifiers): units with few identifiers report an empty %s, which both codecs write" % (fn.split("::")[-1], which, repr(ret)[:120], fn.split("::")[-1]))
     # 5/6 who calls what
     gu = prog.get("haystack::units::get_unit")
     if gu is None:
@@ -142,6 +239,29 @@ def check(ctx, rep):
             rep.ok("R-UNITS", "get_unit-is-one-lookup", gu.where(), "get_unit is a single HashMap::get on UNITS: a string that is no identifier returns None")
         else:
             rep.bad("R-UNITS", "R-UNITS:get_unit-is-one-lookup", gu.where(), "get_unit is not a plain HashMap::get on the table: %s" % calls)
+        # every identifier reaches that lookup: branches in front of it are evaluated for each key of the table
+        switches = [bi for bi in range(gu.n) if gu.term(bi)["k"] == "switch"]
+        getb = [bi for bi, t2 in gu.calls() if strip_generics(mir.callee_name(t2) or "") == "std::collections::HashMap::get"]
+        pre = [bi for bi in switches if getb and getb[0] in gu.reachable(bi)]
+        if not pre:
+            rep.ok("R-UNITS", "get_unit-unconditional", gu.where(), "no branch in front of the lookup: every string is looked up")
+        else:
+            lens = sorted({len(i.encode("utf-8")) for i, _n in pairs})
+            var = None
+            for bi in pre:
+                m = re.search(r"(core::str::<impl str>::len\(_1\)|len\(_1\))", repr(G.describe(gu, gu.term(bi)["op"])))
+                if m:
+                    var = m.group(1)
+            if var is None:
+                rep.bad("R-UNITS", "R-UNITS:get_unit-unconditional", gu.where(pre[0]), "get_unit branches before the table lookup on a condition this rule cannot evaluate for every identifier (%s)" % repr(G.describe(gu, gu.term(pre[0])["op"]))[:100])
+            else:
+                must, may = G.byte_set_reaching(gu, var, 0, getb, {}, values=lens)
+                cut = [l for l in lens if l not in must]
+                if cut:
+                    ex = [i for i, _n in pairs if len(i.encode("utf-8")) in cut][:3]
+                    rep.bad("R-UNITS", "R-UNITS:get_unit-unconditional", gu.where(pre[0]), "get_unit returns before the lookup for identifiers of byte length %s (e.g. %s): those units are not found by that name" % (cut, ex))
+                else:
+                    rep.ok("R-UNITS", "get_unit-unconditional", gu.where(pre[0]), "the length guard in front of the lookup lets every identifier length of the table (%d..%d) through" % (lens[0], lens[-1]))
     def calls_of(short):
         b = prog.get(short) or next((x for x in prog.bodies.values() if x.short == short), None)
         return b, ([strip_generics(mir.callee_name(t2) or "") for _, t2 in b.calls()] if b else [])
